@@ -334,9 +334,17 @@ def canon(case):
 def shrink(case):
     rows = case["rows"]
     if case["kind"] in ("merge", "merge_obj") and len(rows) > 2:
-        h = len(rows) // 2
-        for part in (rows[:h], rows[h:]):
-            yield dict(case, rows=part)
+        # a collision needs two particular rows: try every union of two quarters, then single removals
+        k = 4 if len(rows) >= 8 else 2
+        step = (len(rows) + k - 1) // k
+        chunks = [rows[i:i + step] for i in range(0, len(rows), step)]
+        if k == 2:
+            for part in chunks:
+                yield dict(case, rows=part)
+        else:
+            for i in range(len(chunks)):
+                for j in range(i + 1, len(chunks)):
+                    yield dict(case, rows=chunks[i] + chunks[j])
         if len(rows) <= 16:
             for i in range(len(rows)):
                 yield dict(case, rows=rows[:i] + rows[i + 1:])
